@@ -73,7 +73,9 @@ def run_cli(binary, args, cwd, stdin=None, seed=0, extra_env=None, timeout=60):
 
 def scratch(name):
     """fresh scratch directory under /verif/.build/tmp (never /tmp)"""
-    d = os.path.join(BUILD, "tmp", name)
+    # (a trial against a scratch subject gets its own scratch root, so it cannot collide with a
+    # regular run of the same check)
+    d = os.path.join(BUILD if OUT == VERIF else OUT, "tmp", name)
     shutil.rmtree(d, ignore_errors=True)
     os.makedirs(d)
     return d
